@@ -143,6 +143,9 @@ class WirePropagateManager(WireManagerBase):
             # by copying wires alone would stall propagate_gradings() forever
             return
 
+        # edges (and their lengths) may have been replaced after the wires were created
+        self.update()
+
         self.copy_neighbours()
         self.propagate_grading()
 
